@@ -203,8 +203,25 @@ impl Incremental {
             self.miss.insert(path.src.clone());
             return false;
         };
-        // Loaded now while `entry` is borrowed; replayed only on success.
-        let diag_bytes = self.store.load_diagnostics(entry);
+        // Loaded now while `entry` is borrowed; replayed only on success. A
+        // recorded diagnostics blob that cannot be read or decoded (damaged
+        // or deleted on disk) means the file's cached warnings would be lost
+        // on a restore, so the file must be analyzed afresh instead.
+        let diagnostics = match &entry.diagnostics {
+            Some(_) => {
+                let decoded = self
+                    .store
+                    .load_diagnostics(entry)
+                    .and_then(|x| fragment_cache::restore_diagnostics(&x).ok());
+                let Some(decoded) = decoded else {
+                    debug!("Failed to load diagnostics ({src})");
+                    self.miss.insert(path.src.clone());
+                    return false;
+                };
+                decoded
+            }
+            None => Vec::new(),
+        };
         let Ok(fragment) = Fragment::from_bytes(&bytes) else {
             debug!("Failed to decode fragment ({src})");
             self.miss.insert(path.src.clone());
@@ -221,12 +238,7 @@ impl Incremental {
                 self.store.keep(&src);
                 self.restored += 1;
                 self.inputs.remove(&path.src);
-                if let Some(diag_bytes) = diag_bytes {
-                    match fragment_cache::restore_diagnostics(&diag_bytes) {
-                        Ok(diags) => self.restored_diagnostics.extend(diags),
-                        Err(x) => debug!("Failed to restore diagnostics ({src}): {x}"),
-                    }
-                }
+                self.restored_diagnostics.extend(diagnostics);
                 true
             }
             Err(x) => {
